@@ -70,8 +70,13 @@ groups only); a single group (no remaining groups: undefined); entries missing f
 degenerate RDMs (constant, all zero) for cosine / corr; the fold generators themselves (C05) and the non-interference of
 fitting (C05); bootstrap plumbing of the ceilings (C04); util/pooling.py's pool_rdm (used by the fitters, C08).
 """
+import copy
 import functools
 import itertools
+import json
+import os
+import subprocess
+import sys
 import warnings
 
 import numpy as np
@@ -91,6 +96,12 @@ OB_INV = 'C07/noise_ceiling/oracle/scale-shift-invariance'
 OB_MISS = 'C07/noise_ceiling/oracle/common-missing-entries-ignored'
 OB_CV = 'C07/cv_noise_ceiling/oracle/literal-recomputation'
 OB_RES = 'C07/Result.noise_ceiling/oracle/literal-recomputation'
+OB_CALL = 'C07/noise_ceiling/oracle/call-sequence-and-inputs-unchanged'
+OB_ENV = 'C07/noise_ceiling/oracle/same-result-in-a-new-interpreter'
+OB_PERM = 'C07/boot_noise_ceiling/oracle/order-of-rdms-and-conditions-irrelevant'
+
+INT_DTYPES = ('int64', 'int32', 'int16', 'uint8')
+TOL_F32 = 1e-5      # data handed over as float32: the library may compute in single precision (eps 6e-8, mild conditioning)
 
 
 # =====================================================================================================
@@ -225,8 +236,12 @@ def _spec_bounds(method, vecs, labels, nc):
     return tuple(np.mean(np.array(lows), axis=0)), tuple(np.mean(np.array(ups), axis=0))
 
 
-def _in_range(val, rng):
-    return np.isfinite(val) and rng[0] - TOL <= val <= rng[2] + TOL
+def _in_range(val, rng, tol=TOL):
+    return np.isfinite(val) and rng[0] - tol <= val <= rng[2] + tol
+
+
+def _tol(case, base=TOL):
+    return max(base, TOL_F32) if case.get('dtype') == 'float32' else base
 
 
 def _fmt(rng):
@@ -308,11 +323,43 @@ def _data(case):
             for row in v:
                 if np.max(row[sub]) == np.min(row[sub]):
                     row[sub[0]] += 1.0 + 0.5 * len(sub)
+    # --- representation sweeps: the VALUES the library is given (the spec always works on these values as float64)
+    dt = case.get('dtype')
+    if dt in INT_DTYPES:
+        if kind != 'int':
+            raise ValueError('integer-typed data need kind int')
+        if np.any(v[:, ok] != np.rint(v[:, ok])):      # the fix above may add x.5
+            v = 2.0 * v
+    if case.get('unit'):
+        v = v * 10.0 ** case['unit']                    # the same RDMs in another (legitimate) unit
+    if dt == 'float32':
+        v = v.astype(np.float32).astype(float)          # exactly representable, so that spec and library see the same numbers
     return v
+
+
+def _dim(case):
+    """suffix of the input class: the representation dimensions varied by the sweeps (empty for the original cases)"""
+    s = ''
+    if case.get('dtype'):
+        s += f",dtype={case['dtype']}"
+    if case.get('unit'):
+        s += f",unit=1e{case['unit']:+d}"
+    if case.get('label_container'):
+        s += f",labels-as-{case['label_container']}"
+    if case.get('vals_container'):
+        s += f",fold-values-as-{case['vals_container']}"
+    if case.get('matrix_input'):
+        s += ',square-matrix-input'
+    if case.get('decoys'):
+        s += ',decoy-descriptors'
+    if case.get('label_style'):
+        s += f",{case['label_style']}-labels"
+    return s
 
 
 def _ic(method, case, labels=None):
     s = f"{method},{case.get('kind', 'levels' if 'levels' in case else 'pos')}"
+    s += _dim(case)
     if _nan_entries(case):
         s += ',nan'
     if labels is not None:
@@ -326,40 +373,84 @@ def _ic(method, case, labels=None):
     return s
 
 
-def _mk_rdms(vecs, labels=None, pattern_labels=None):
+def _container(vals, how):
+    if how == 'tuple':
+        return tuple(vals)
+    if how == 'ndarray':
+        return np.array(vals)
+    return list(vals)
+
+
+def _mk_rdms(vecs, labels=None, pattern_labels=None, style=None):
+    """the DATA RDMs as the caller would hand them over.  `style` (normally the case dict) selects the representation:
+    dtype (integer types / float32), square matrices instead of vectors, descriptors as list / tuple / ndarray, further
+    ('decoy') descriptors around the one that is used.  None of this changes the values, hence not the expected result."""
     from rsatoolbox.rdm import RDMs
+    style = style or {}
+    arr = np.array(vecs, dtype=float).copy()
+    n, npair = arr.shape
+    nc = int(round((1 + np.sqrt(1 + 8 * npair)) / 2))
+    dt = style.get('dtype')
+    if dt in INT_DTYPES:
+        info = np.iinfo(dt)
+        if np.isnan(arr).any() or np.any(arr != np.rint(arr)) or arr.min() < info.min or arr.max() > info.max:
+            raise AssertionError(f'spec: values not representable as {dt}')
+    if style.get('matrix_input'):
+        mats = np.zeros((n, nc, nc))
+        for k, (i, j) in enumerate(_pairs(nc)):
+            mats[:, i, j] = arr[:, k]
+            mats[:, j, i] = arr[:, k]
+        arr = mats
+    if dt:
+        arr = arr.astype(dt)
+    how = style.get('label_container')
     kw = {}
+    rdm_d, pat_d = {}, {}
+    if style.get('decoys'):     # other descriptors, with other groupings, before and after the one that is meant
+        rdm_d['aaa'] = _container([i % 2 for i in range(n)], how)
+        pat_d['aaa'] = _container(['p%d' % (i % 2) for i in range(nc)], how)
     if labels is not None:
-        kw['rdm_descriptors'] = {'grp': list(labels)}
+        rdm_d['grp'] = _container(labels, how)
     if pattern_labels is not None:
-        kw['pattern_descriptors'] = {'cond': list(pattern_labels)}
-    return RDMs(np.array(vecs, dtype=float).copy(), **kw)
+        pat_d['cond'] = _container(pattern_labels, how)
+    if style.get('decoys'):
+        rdm_d['zzz'] = _container(['all'] * n, how)
+        pat_d['zzz'] = _container(list(range(nc - 1, -1, -1)), how)
+    if rdm_d:
+        kw['rdm_descriptors'] = rdm_d
+    if pat_d:
+        kw['pattern_descriptors'] = pat_d
+    return RDMs(arr, **kw)
 
 
-def _boot(vecs, method, labels=None):
+def _boot_rd(rd, method, grouped):
     from rsatoolbox.inference.noise_ceiling import boot_noise_ceiling
     with warnings.catch_warnings():
         warnings.simplefilter('ignore')
-        if labels is None:
-            lo, up = boot_noise_ceiling(_mk_rdms(vecs), method=method)
+        if grouped:
+            lo, up = boot_noise_ceiling(rd, method=method, rdm_descriptor='grp')
         else:
-            lo, up = boot_noise_ceiling(_mk_rdms(vecs, labels), method=method, rdm_descriptor='grp')
+            lo, up = boot_noise_ceiling(rd, method=method)
     return float(lo), float(up)
 
 
-def _real_scores(cands, vecs, method):
+def _boot(vecs, method, labels=None, style=None):
+    return _boot_rd(_mk_rdms(vecs, labels, style=style), method, labels is not None)
+
+
+def _real_scores(cands, vecs, method, style=None):
     from rsatoolbox.rdm import compare
     with warnings.catch_warnings():
         warnings.simplefilter('ignore')
-        return np.mean(compare(_mk_rdms(cands), _mk_rdms(vecs), method), axis=1)
+        return np.mean(compare(_mk_rdms(cands), _mk_rdms(vecs, style=style), method), axis=1)
 
 
-def _real_pooled_score(vecs, method):
+def _real_pooled_score(vecs, method, style=None):
     from rsatoolbox.rdm import compare
     from rsatoolbox.util.inference_util import pool_rdm
     with warnings.catch_warnings():
         warnings.simplefilter('ignore')
-        rd = _mk_rdms(vecs)
+        rd = _mk_rdms(vecs, style=style)
         return float(np.mean(compare(pool_rdm(rd, method=method), rd, method)))
 
 
@@ -426,6 +517,34 @@ def _candidates(case, method, vecs):
         q = p.copy()
         q[order[k]], q[order[k + 1]] = p[order[k + 1]], p[order[k]]
         cands.append((f'maximiser with ranks {k},{k + 1} swapped', q))
+    # ---- competitor sweep (appended, own random stream: the candidates above are unchanged).  The trivial candidates: every
+    # basis element and its complement (the zero RDM has no direction: not a candidate); the obvious rivals of the pooled RDM:
+    # the best-fitting RDM of all data but one, the maximisers of the OTHER measures, median, random convex combinations of
+    # the data; close candidates: the maximiser with 1e-6 / 1e-8 sd noise and with single entries nudged
+    rs2 = np.random.RandomState(case['seed'] + 15485863)
+    step = max(1, -(-nv // 28))
+    for k in range(0, nv, step):
+        e = np.zeros(nv)
+        e[k] = 1.0
+        cands.append((f'basis element {k}', e))
+        cands.append((f'all ones minus basis element {k}', 1.0 - e))
+    if n > 2:
+        for i in range(min(n, 6)):
+            cands.append((f'spec maximiser of the data without rdm {i}', _pool(method, np.delete(vecs, i, axis=0))[ok]))
+    for other in OPT_METHODS:
+        if other != method:
+            cands.append((f'spec maximiser for {other}', _pool(other, vecs)[ok]))
+    cands.append(('entrywise median of the data', np.median(vecs[:, ok], axis=0)))
+    for k in range(4):
+        w = rs2.dirichlet(np.ones(n))
+        cands.append((f'random convex combination {k} of the data', w @ vecs[:, ok]))
+    for eps in (1e-6, 1e-8):
+        for k in range(2):
+            cands.append((f'maximiser + {eps:g} sd noise {k}', p + eps * sd * rs2.randn(nv)))
+    for k in range(0, nv, max(1, nv // 4)):
+        q = p.copy()
+        q[k] += 1e-3 * sd
+        cands.append((f'maximiser with entry {k} raised by 1e-3 sd', q))
     out = []
     for name, x in cands:   # a constant candidate has no direction
         if np.max(x) > np.min(x):
@@ -439,22 +558,23 @@ def orc_optimal(case):
     nc = case['n_cond']
     vecs = _data(case)
     n = len(vecs)
-    lower, upper = _boot(vecs, method)
+    tol = _tol(case)
+    lower, upper = _boot(vecs, method, style=case)
     if not np.isfinite(upper):
         return f'upper bound is {upper}'
     cands = _candidates(case, method, vecs)
     spec = np.array([np.mean([_sim(method, c, v, nc) for v in vecs]) for _, c in cands])
     k = int(np.argmax(spec))
-    if spec[k] > upper + TOL:
+    if spec[k] > upper + tol:
         return f'candidate "{cands[k][0]}" scores {spec[k]:.12g} > upper bound {upper:.12g}'
-    if spec[k] < upper - TOL:
+    if spec[k] < upper - tol:
         return f'upper bound {upper:.12g} is not attained: the best candidate "{cands[k][0]}" scores only {spec[k]:.12g}'
-    real = _real_scores([c for _, c in cands], vecs, method)
+    real = _real_scores([c for _, c in cands], vecs, method, style=case)
     k = int(np.argmax(real))
-    if real[k] > upper + TOL:
+    if real[k] > upper + tol:
         return f'candidate "{cands[k][0]}" scores {real[k]:.12g} (real compare) > upper bound {upper:.12g}'
-    att = _real_pooled_score(vecs, method)
-    if abs(att - upper) > TOL:
+    att = _real_pooled_score(vecs, method, style=case)
+    if abs(att - upper) > tol:
         return f'pooled RDM scores {att:.12g} (real compare) != upper bound {upper:.12g}'
     if method in ('cosine', 'corr'):
         ok = ~np.isnan(vecs[0])
@@ -463,7 +583,7 @@ def orc_optimal(case):
             x = v[ok] - (np.mean(v[ok]) if method == 'corr' else 0.0)
             s += x / np.sqrt(np.sum(x * x))
         closed = float(np.sqrt(np.sum(s * s)) / n)
-        if abs(closed - upper) > TOL:
+        if abs(closed - upper) > tol:
             return f'upper bound {upper:.12g} != |sum of unit vectors| / n = {closed:.12g}'
     return None
 
@@ -475,12 +595,12 @@ def orc_loo(case):
     vecs = _data(case)
     labels = case.get('labels')
     spec_labels = list(labels) if labels is not None else list(range(len(vecs)))
-    lower, upper = _boot(vecs, method, labels)
+    lower, upper = _boot(vecs, method, labels, style=case)
     lo_rng, up_rng = _spec_bounds(method, vecs, spec_labels, nc)
-    if not _in_range(lower, lo_rng):
+    if not _in_range(lower, lo_rng, _tol(case)):
         return (f'lower bound {lower:.12g} != average over the {len(set(spec_labels))} left-out groups {_fmt(lo_rng)} '
                 f'(labels {spec_labels})')
-    if len(set(spec_labels)) == len(spec_labels) and not _in_range(upper, up_rng):
+    if len(set(spec_labels)) == len(spec_labels) and not _in_range(upper, up_rng, _tol(case)):
         return f'upper bound {upper:.12g} != average similarity of the best-fitting RDM of all data {_fmt(up_rng)}'
     return None
 
@@ -492,9 +612,9 @@ def orc_upper_grouped(case):
     method = case['method']
     vecs = _data(case)
     labels = list(case['labels'])
-    _, upper = _boot(vecs, method, labels)
+    _, upper = _boot(vecs, method, labels, style=case)
     _, up_rng = _spec_bounds(method, vecs, labels, case['n_cond'])
-    if not _in_range(upper, up_rng):
+    if not _in_range(upper, up_rng, _tol(case)):
         return (f'upper bound {upper:.12g} != average over the {len(set(labels))} groups of the mean similarity between the group '
                 f'and the best-fitting RDM of all data {_fmt(up_rng)} (labels {labels})')
     return None
@@ -504,10 +624,10 @@ def orc_upper_grouped(case):
 def orc_ordering(case):
     method = case['method']
     vecs = _data(case)
-    lower, upper = _boot(vecs, method)
+    lower, upper = _boot(vecs, method, style=case)
     if not (np.isfinite(lower) and np.isfinite(upper)):
         return f'bounds not finite: lower {lower}, upper {upper}'
-    if lower > upper + TOL:
+    if lower > upper + _tol(case):
         return f'lower bound {lower:.12g} > upper bound {upper:.12g}'
     return None
 
@@ -518,7 +638,8 @@ def _cv_sets(vecs, case):
     nc = case['n_cond']
     desc = 'cond' if plab is not None else 'index'
     plab_eff = list(plab) if plab is not None else list(range(nc))
-    rd = _mk_rdms(vecs, pattern_labels=plab)
+    rd = _mk_rdms(vecs, pattern_labels=plab, style=case)
+    how = case.get('vals_container')    # the (RDMs, values) tuples carry the fold's values as list / tuple / ndarray
     ceil_set, test_set = [], []
     for f in case['folds']:
         vals = list(f['vals'])
@@ -528,7 +649,10 @@ def _cv_sets(vecs, case):
             tr = tr.subset_pattern(desc, vals)
         arr = vals if plab is not None else np.array(vals)
         allv = list(dict.fromkeys(plab_eff))
-        ceil_set.append((tr, (allv if plab is not None else np.array(allv)) if case.get('ceil_full') else arr))
+        callv = allv if plab is not None else np.array(allv)
+        if how is not None:
+            arr, callv = _container(vals, how), _container(allv, how)
+        ceil_set.append((tr, callv if case.get('ceil_full') else arr))
         test_set.append((te, arr))
     return rd, ceil_set, test_set, desc, plab_eff
 
@@ -566,10 +690,10 @@ def orc_cv(case):
     vecs = _data(case)
     lower, upper = _cv(vecs, case, method)
     lo_rng, up_rng = _spec_cv(method, vecs, case)
-    if not _in_range(lower, lo_rng):
+    if not _in_range(lower, lo_rng, _tol(case)):
         return (f'cv lower bound {lower:.12g} != mean over folds of the similarity between the test RDMs and the pooled '
                 f'ceil RDMs at the test conditions {_fmt(lo_rng)}')
-    if not _in_range(upper, up_rng):
+    if not _in_range(upper, up_rng, _tol(case)):
         return (f'cv upper bound {upper:.12g} != mean over folds of the similarity between the test RDMs and the pooled '
                 f'complete data at the test conditions {_fmt(up_rng)}')
     return None
@@ -596,7 +720,7 @@ def orc_invariance(case):
     n = len(vecs)
     rs = np.random.RandomState(case['seed'] + 104729)
     a = 10.0 ** rs.uniform(-case.get('decades', 2), case.get('decades', 2), size=(n, 1))
-    b = 5.0 * rs.randn(n, 1) if method in ('corr', 'corr_cov') else 0.0
+    b = 5.0 * 10.0 ** case.get('unit', 0) * rs.randn(n, 1) if method in ('corr', 'corr_cov') else 0.0   # shifts in the data's unit
     if case.get('only') is not None:     # transform ONE RDM only
         keep = np.zeros((n, 1), dtype=bool)
         keep[case['only']] = True
@@ -608,7 +732,7 @@ def orc_invariance(case):
         r1, r2 = _cv(vecs, case, method), _cv(vecs2, case, method)
         fn = 'cv_noise_ceiling'
     else:
-        r1, r2 = _boot(vecs, method, case.get('labels')), _boot(vecs2, method, case.get('labels'))
+        r1, r2 = _boot(vecs, method, case.get('labels'), case), _boot(vecs2, method, case.get('labels'), case)
         fn = 'boot_noise_ceiling'
     for nm, x, y in (('lower', r1[0], r2[0]), ('upper', r1[1], r2[1])):
         if not (np.isfinite(x) and np.isfinite(y)) or abs(x - y) > 1e-8:
@@ -630,10 +754,10 @@ def orc_missing(case):
     with_nan[:, hit] = np.nan
     small = full_vecs[:, ~hit]                            # the RDM over the remaining conditions (same pair order)
     labels = case.get('labels')
-    r1 = _boot(with_nan, method, labels)
-    r2 = _boot(small, method, labels)
+    r1 = _boot(with_nan, method, labels, case)
+    r2 = _boot(small, method, labels, case)
     for nm, x, y in (('lower', r1[0], r2[0]), ('upper', r1[1], r2[1])):
-        if not (np.isfinite(x) and np.isfinite(y)) or abs(x - y) > TOL:
+        if not (np.isfinite(x) and np.isfinite(y)) or abs(x - y) > _tol(case):
             return (f'{nm} bound {x:.12g} with all entries of condition(s) {drop} missing from every RDM, but {y:.12g} for the '
                     f'same data without these conditions')
     return None
@@ -652,7 +776,7 @@ def orc_result(case):
     with warnings.catch_warnings():
         warnings.simplefilter('ignore')
         if case['mode'] == 'fixed':
-            res = eval_fixed(model, _mk_rdms(vecs), method=method)
+            res = eval_fixed(model, _mk_rdms(vecs, style=case), method=method)
             nz = np.asarray(res.noise_ceiling, dtype=float)
             lo_rng, up_rng = _spec_bounds(method, vecs, list(range(len(vecs))), nc)
         else:
@@ -677,10 +801,179 @@ def orc_result(case):
     if nz.shape[0] != 2:
         return f'Result.noise_ceiling has shape {nz.shape}, expected (lower, upper) first'
     lower, upper = float(np.mean(nz[0])), float(np.mean(nz[1]))
-    if not _in_range(lower, lo_rng):
+    if not _in_range(lower, lo_rng, _tol(case)):
         return f"Result.noise_ceiling lower {lower:.12g} != {_fmt(lo_rng)} ({case['mode']})"
-    if not _in_range(upper, up_rng):
+    if not _in_range(upper, up_rng, _tol(case)):
         return f"Result.noise_ceiling upper {upper:.12g} != {_fmt(up_rng)} ({case['mode']})"
+    return None
+
+
+def _snapshot(rd):
+    return (np.array(rd.dissimilarities, copy=True), rd.dissimilarities.dtype, copy.deepcopy(rd.rdm_descriptors),
+            copy.deepcopy(rd.pattern_descriptors))
+
+
+def _same_desc(a, b):
+    if list(a.keys()) != list(b.keys()):
+        return False
+    return all(type(a[k]) is type(b[k]) and np.array_equal(np.asarray(a[k]), np.asarray(b[k])) for k in a)
+
+
+def _changed(rd, snap, what):
+    d, dt, rdesc, pdesc = snap
+    if rd.dissimilarities.dtype != dt or not np.array_equal(np.asarray(rd.dissimilarities), d, equal_nan=True):
+        return f'the dissimilarities of {what} were changed by the call'
+    if not _same_desc(rd.rdm_descriptors, rdesc) or not _same_desc(rd.pattern_descriptors, pdesc):
+        return f'the descriptors of {what} were changed by the call'
+    return None
+
+
+@oracle('C07/calls')
+def orc_calls(case):
+    """the bounds are a function of the data handed over, and of nothing else: the call sequence f(B), f(A), f(B), f(A) on the
+    SAME objects (A, B: same shape, same descriptors, different content) gives identical values for the repeated calls, the
+    value stated by the property for each (plain measures; for the whitened ones: not the value of the other stack), leaves
+    A and B (and the fold sets) as they were, and an RDM pooled before keeps its values"""
+    from rsatoolbox.util.inference_util import pool_rdm
+    method = case['method']
+    plain = method in OPT_METHODS
+    nc = case['n_cond']
+    case_b = dict(case, seed=case['seed'] + 1000003)
+    va, vb = _data(case), _data(case_b)
+    labels = case.get('labels')
+    if case.get('folds'):
+        sa, sb = _cv_sets(va, case), _cv_sets(vb, case_b)
+        from rsatoolbox.inference.noise_ceiling import cv_noise_ceiling
+
+        def f(sets):
+            with warnings.catch_warnings():
+                warnings.simplefilter('ignore')
+                lo, up = cv_noise_ceiling(sets[0], sets[1], sets[2], method=method, pattern_descriptor=sets[3])
+            return float(lo), float(up)
+        objs = lambda sets: [('the complete data', sets[0])] + \
+            [(f'ceil set {k}', c[0]) for k, c in enumerate(sets[1])] + [(f'test set {k}', t[0]) for k, t in enumerate(sets[2])]
+        spec = lambda v, c: _spec_cv(method, v, c)
+        fn = 'cv_noise_ceiling'
+    else:
+        sa, sb = _mk_rdms(va, labels, style=case), _mk_rdms(vb, labels, style=case)
+        f = lambda rd: _boot_rd(rd, method, labels is not None)
+        objs = lambda rd: [('the data RDMs', rd)]
+        spec = lambda v, c: _spec_bounds(method, v, list(labels) if labels is not None else list(range(len(v))), nc)
+        fn = 'boot_noise_ceiling'
+    snaps = [(nm, o, _snapshot(o)) for nm, o in objs(sa) + objs(sb)]
+    rd_a = sa[0] if case.get('folds') else sa
+    rd_b = sb[0] if case.get('folds') else sb
+    with warnings.catch_warnings():
+        warnings.simplefilter('ignore')
+        held = pool_rdm(rd_a, method=method)
+    held_copy = np.array(held.dissimilarities, copy=True)
+    b1, a1, b2, a2 = f(sb), f(sa), f(sb), f(sa)
+    for nm, x, y in (('A', a1, a2), ('B', b1, b2)):
+        if not (np.all(np.isfinite(x)) and x == y):
+            return f'{fn}: the same call on the same objects ({nm}) gives {x} the first and {y} the second time'
+    if plain:
+        for nm, r, v, c in (('A', a1, va, case), ('B', b1, vb, case_b)):
+            lo_rng, up_rng = spec(v, c)
+            if not _in_range(r[0], lo_rng, _tol(case)) or not _in_range(r[1], up_rng, _tol(case)):
+                return (f'{fn}: in the sequence f(B), f(A), f(B), f(A) stack {nm} gets ({r[0]:.12g}, {r[1]:.12g}), stated: '
+                        f'({_fmt(lo_rng)}, {_fmt(up_rng)})')
+    elif abs(a1[0] - b1[0]) < 1e-7 and abs(a1[1] - b1[1]) < 1e-7:
+        return f'{fn}: stack A called after stack B (same shape, different values) gets the bounds of B {b1}'
+    for nm, o, snap in snaps:
+        msg = _changed(o, snap, nm)
+        if msg:
+            return f'{fn}: {msg}'
+    with warnings.catch_warnings():
+        warnings.simplefilter('ignore')
+        pool_rdm(rd_b, method=method)
+        again = pool_rdm(rd_a, method=method)
+    if not np.array_equal(held.dissimilarities, held_copy, equal_nan=True):
+        return 'pool_rdm: the pooled RDM of stack A held by the caller changed when other stacks were pooled afterwards'
+    if not np.array_equal(again.dissimilarities, held_copy, equal_nan=True):
+        return 'pool_rdm: pooling stack A again (after pooling stack B) gives different values'
+    return None
+
+
+_CHILD = r'''
+import json, sys
+from contracts import C07_c as m
+out = []
+for case in json.load(sys.stdin):
+    v = m._data(case)
+    out.append(m._cv(v, case, case['method']) if case.get('folds') else m._boot(v, case['method'], case.get('labels'), case))
+print('RESULT' + json.dumps(out))
+'''
+
+
+@oracle('C07/new-interpreter')
+def orc_new_interpreter(case):
+    """a new interpreter with another PYTHONHASHSEED computes the same bounds: the stated value (plain measures), and the
+    value of this process (all measures).  case['cases'] are ordinary boot / cv cases, evaluated by one child process."""
+    root = os.path.dirname(os.path.dirname(os.path.abspath(__file__)))
+    env = dict(os.environ, PYTHONHASHSEED=str(case['hashseed']), MPLBACKEND='Agg', PYTHONDONTWRITEBYTECODE='1',
+               PYTHONPATH=os.pathsep.join([q for q in sys.path if q]))
+    proc = subprocess.run([sys.executable, '-c', _CHILD], input=json.dumps(case['cases']), capture_output=True, text=True,
+                          env=env, cwd=root, timeout=600)
+    lines = [ln for ln in proc.stdout.splitlines() if ln.startswith('RESULT')]
+    if proc.returncode != 0 or not lines:
+        return f"child interpreter (PYTHONHASHSEED={case['hashseed']}) failed: rc {proc.returncode}: {proc.stderr[-400:]}"
+    res = json.loads(lines[-1][6:])
+    for sub, r in zip(case['cases'], res):
+        method = sub['method']
+        v = _data(sub)
+        here = _cv(v, sub, method) if sub.get('folds') else _boot(v, method, sub.get('labels'), sub)
+        tag = {k: w for k, w in sub.items() if k not in ('folds',)}
+        if not (np.all(np.isfinite(r)) and abs(r[0] - here[0]) <= 1e-12 and abs(r[1] - here[1]) <= 1e-12):
+            return f"PYTHONHASHSEED={case['hashseed']}: bounds {r} in the new interpreter, {here} in this one; case {tag}"
+        if method in OPT_METHODS:
+            if sub.get('folds'):
+                lo_rng, up_rng = _spec_cv(method, v, sub)
+            else:
+                labels = sub.get('labels')
+                lo_rng, up_rng = _spec_bounds(method, v, list(labels) if labels is not None else list(range(len(v))),
+                                              sub['n_cond'])
+            if not _in_range(r[0], lo_rng) or not _in_range(r[1], up_rng):
+                return (f"PYTHONHASHSEED={case['hashseed']}: bounds {r} in the new interpreter, stated "
+                        f"({_fmt(lo_rng)}, {_fmt(up_rng)}); case {tag}")
+    return None
+
+
+def _permute_conds(vecs, nc, perm):
+    """the same RDMs with the conditions listed in the order perm: new entry (a, b) = old entry (perm[a], perm[b])"""
+    idx = {}
+    for k, (i, j) in enumerate(_pairs(nc)):
+        idx[(i, j)] = k
+        idx[(j, i)] = k
+    cols = [idx[(perm[a], perm[b])] for a, b in _pairs(nc)]
+    return np.asarray(vecs)[:, cols]
+
+
+@oracle('C07/permutation')
+def orc_permutation(case):
+    """both bounds are averages over groups of similarities between RDMs: neither the order in which the data RDMs are stacked
+    (labels moved along) nor the order in which the conditions are listed (all RDMs alike) enters"""
+    method = case['method']
+    nc = case['n_cond']
+    vecs = _data(case)
+    if _undetermined(case):
+        return None
+    n = len(vecs)
+    labels = case.get('labels')
+    rs = np.random.RandomState(case['seed'] + 611953)
+    r0 = _boot(vecs, method, labels, case)
+    todo = []
+    for k in range(case.get('n_perm', 2)):
+        pr = [int(i) for i in rs.permutation(n)]
+        todo.append((f'stacking the RDMs in the order {pr}', vecs[pr], [labels[i] for i in pr] if labels is not None else None))
+        pc = [int(i) for i in rs.permutation(nc)]
+        todo.append((f'listing the conditions in the order {pc}', _permute_conds(vecs, nc, pc), labels))
+    todo.append(('stacking the RDMs in reverse order', vecs[::-1], list(labels)[::-1] if labels is not None else None))
+    todo.append(('listing the conditions in reverse order', _permute_conds(vecs, nc, list(range(nc))[::-1]), labels))
+    for what, v2, l2 in todo:
+        r = _boot(v2, method, l2, case)
+        for nm, x, y in (('lower', r0[0], r[0]), ('upper', r0[1], r[1])):
+            if not (np.isfinite(x) and np.isfinite(y)) or abs(x - y) > _tol(case, 1e-8):
+                return f'{nm} bound changes from {x:.12g} to {y:.12g} by {what} (labels {labels})'
     return None
 
 
@@ -1012,7 +1305,383 @@ def tier_c(run, thorough):
                 bd.check(orc_result, case, f'{method},crossval-noceil', function='crossval')
     bd.done()
     bds.append(bd)
+    _sweeps(run, thorough, bds)
     return bds
+
+
+# =====================================================================================================
+# dimension sweeps: the same oracles on inputs that vary along ONE further dimension each
+# =====================================================================================================
+_OB_OF = {'C07/optimal': OB_OPT, 'C07/loo': OB_LOO, 'C07/upper-grouped': OB_UPG, 'C07/ordering': OB_ORD, 'C07/invariance': OB_INV,
+          'C07/missing': OB_MISS, 'C07/cv': OB_CV, 'C07/result': OB_RES, 'C07/calls': OB_CALL, 'C07/new-interpreter': OB_ENV,
+          'C07/permutation': OB_PERM}
+_FN_OF = {'C07/optimal': 'pool_rdm', 'C07/cv': 'cv_noise_ceiling', 'C07/result': 'eval_fixed', 'C07/missing': '_nan_mean'}
+
+
+class _Sweep:
+    """collects the cases of one dimension and files them as one Bounded per oracle (= per obligation)"""
+
+    def __init__(self, run, bds, dim, domain):
+        self.run, self.bds, self.dim, self.domain = run, bds, dim, domain
+        self.items = {}
+
+    def add(self, orc, case, input_class, function=None):
+        self.items.setdefault(orc.oracle_name, []).append((orc, case, input_class, function))
+
+    def done(self):
+        for name, items in self.items.items():
+            fn = _FN_OF.get(name, 'boot_noise_ceiling')
+            bd = Bounded(self.run, f'C07/sweep-{self.dim}/{name[4:]}', _OB_OF[name], self.domain, function=fn)
+            for orc, case, ic, f in items:
+                bd.check(orc, case, ic, function=f or fn)
+            bd.done()
+            self.bds.append(bd)
+
+
+def _square_fits(case):
+    """integer-typed data whose squares still fit the type"""
+    return float(np.nanmax(np.abs(_data(case)))) ** 2 <= np.iinfo(case['dtype']).max
+
+
+def _sweeps(run, thorough, bds):
+    grp5 = [3, 1, 3, 3, 2]
+    folds46 = _grid_folds(4, 6, 2, 2)
+
+    # ---- typed data: integer types and float32.  expected = the stated value for the same numbers as float64 ------------------
+    sw = _Sweep(run, bds, 'dtype',
+                'data RDMs handed over as int64 / int32 / int16 / uint8 (integer data, squares inside the type) and float32 (tolerance '
+                '1e-5), also as square matrices; n_rdm 3..5, n_cond 4..6, %d seeds; oracles optimal / loo / upper-grouped / ordering / '
+                'cv / result / missing (float32) / calls / permutation; float32 also in units 1e-12, 1e+12'
+                % (3 if thorough else 1))
+    for seed in range(3 if thorough else 1):
+        for dk, dt in enumerate(INT_DTYPES + ('float32',)):
+            ints = dt in INT_DTYPES
+            kinds = ('int',) if ints else ('pos', 'neg')
+            base = dict(dtype=dt)
+            if ints:
+                base['nlev'] = (3, 6, 9, 12)[(dk + seed) % 4]
+            for sk, (n, nc) in enumerate(((3, 4), (5, 6))):
+                for kk, kind in enumerate(kinds):
+                    for method in OPT_METHODS:
+                        if not thorough and (sk + kk + dk) % 2:      # quick: one shape per type (float32: per kind)
+                            continue
+                        case = dict(base, seed=seed * 100 + n * 10 + nc + 3, n_rdm=n, n_cond=nc, kind=kind, method=method)
+                        if nc == 6 and not ints:
+                            case['nan'] = [1, 13]
+                        if nc == 6 and dk % 2:
+                            case['matrix_input'] = True
+                        sw.add(orc_optimal, case, _ic(method, case))
+                    for method in ORD_METHODS:
+                        case = dict(base, seed=seed * 100 + n * 10 + nc + 4, n_rdm=n, n_cond=nc, kind=kind, method=method)
+                        sw.add(orc_ordering, case, _ic(method, case))
+            for kind in kinds:
+                for method in OPT_METHODS:
+                    for labels in (None, grp5, ['b', 'a', 'b', 'c', 'a']):
+                        case = dict(base, seed=seed * 100 + 55, n_rdm=5, n_cond=5, kind=kind, method=method)
+                        if labels is not None:
+                            case['labels'] = labels
+                        sw.add(orc_loo, case, _ic(method, case, labels or list(range(5))))
+                        if labels is not None:
+                            sw.add(orc_upper_grouped, case, _ic(method, case, labels))
+                    case = dict(base, seed=seed * 100 + 46, n_rdm=4, n_cond=6, kind=kind, method=method, folds=folds46)
+                    sw.add(orc_cv, case, f'{method},grid2x2' + _dim(case))
+                    case = dict(base, seed=seed + 3, n_rdm=3, n_cond=5, kind=kind, method=method, mode='fixed')
+                    sw.add(orc_result, case, f'{method},eval_fixed' + _dim(case))
+                    case = dict(base, seed=seed + 6, n_rdm=4, n_cond=6, kind=kind, method=method, mode='crossval', folds=folds46)
+                    sw.add(orc_result, case, f'{method},crossval' + _dim(case))
+                for mk, method in enumerate(ALL_METHODS):
+                    cls = 'whitened' if method.endswith('_cov') else 'plain'
+                    for gk, labels in enumerate((None, grp5)):
+                        if not thorough and (gk + mk + dk) % 2:       # quick: one of the two groupings per type and method
+                            continue
+                        case = dict(base, seed=seed * 10 + 2, n_rdm=5, n_cond=5, kind=kind, method=method, n_perm=1)
+                        if labels is not None:
+                            case['labels'] = labels
+                        sw.add(orc_calls, case, f'{method},{cls},boot' + _dim(case))
+                        if not _undetermined(case):
+                            sw.add(orc_permutation, case, f'{method},{cls},boot' + _dim(case))
+                    if thorough or (mk + dk) % 2:
+                        case = dict(base, seed=seed * 10 + 3, n_rdm=4, n_cond=6, kind=kind, method=method, folds=folds46)
+                        sw.add(orc_calls, case, f'{method},{cls},cv' + _dim(case), 'cv_noise_ceiling')
+            if not ints:
+                for method in ALL_METHODS:
+                    cls = 'whitened' if method.endswith('_cov') else 'plain'
+                    for drop in ([0], [1, 4]):
+                        case = dict(base, seed=seed * 7 + 1, n_rdm=4, n_cond=6, kind='pos', method=method, drop=drop)
+                        sw.add(orc_missing, case, f'{method},{cls},condition-missing' + _dim(case))
+                    for unit in (-12, 12):
+                        case = dict(base, seed=seed + 8, n_rdm=4, n_cond=5, kind='pos', method=method, unit=unit)
+                        if method in OPT_METHODS:
+                            sw.add(orc_loo, case, _ic(method, case, list(range(4))))
+                        else:
+                            sw.add(orc_ordering, case, _ic(method, case))
+    for case_list in sw.items.values():      # the normal classes hold integer data whose squares fit (see pending triage below)
+        for _, case, _, _ in case_list:
+            assert case['dtype'] == 'float32' or _square_fits(case), case
+    if False:  # pending triage: integer-typed data whose SQUARES leave the integer type (cosine pooling squares in the input type)
+        for dt, nlev in (('uint8', 40), ('uint8', 250), ('int16', 400), ('int16', 30000), ('int32', 70000), ('int64', 2 ** 32)):
+            for method in ('cosine', 'corr', 'rho-a'):
+                case = dict(dtype=dt, nlev=nlev, seed=5, n_rdm=4, n_cond=5, kind='int', method=method)
+                sw.add(orc_loo, case, f'{method},int-dtype,square-overflow')
+                sw.add(orc_optimal, case, f'{method},int-dtype,square-overflow')
+            for method in ('cosine_cov', 'corr_cov'):
+                case = dict(dtype=dt, nlev=nlev, seed=5, n_rdm=4, n_cond=5, kind='int', method=method)
+                sw.add(orc_calls, dict(case, dtype=dt), f'{method},int-dtype,square-overflow')
+                sw.add(orc_ordering, case, f'{method},int-dtype,square-overflow')
+    if False:  # pending triage: float32 data in units whose SQUARES leave the float32 range (1e-26: underflow, 1e+20: overflow)
+        for unit in (-26, 20):
+            for method in ALL_METHODS:
+                case = dict(dtype='float32', unit=unit, seed=8, n_rdm=4, n_cond=5, kind='pos', method=method)
+                if method in OPT_METHODS:
+                    sw.add(orc_loo, case, f'{method},float32,square-outside-float32-range')
+                else:
+                    sw.add(orc_ordering, case, f'{method},float32,square-outside-float32-range')
+                    sw.add(orc_invariance, dict(case, dtype=None, decades=0), f'{method},float32,square-outside-float32-range')
+    sw.done()
+
+    # ---- units: the same RDMs measured in a unit 1e-26 .. 1e+12 times the usual one -------------------------------------------
+    units = (-26, -20, -12, 6, 12) + ((-16, -6, 9) if thorough else ())
+    sw = _Sweep(run, bds, 'unit',
+                'all values multiplied by 10^u, u in %s (float64): every absolute threshold would show; n_rdm 3..5, n_cond 4..6, data '
+                'kinds pos / int / anti / neg rotating, %d seeds; oracles optimal / loo / upper-grouped / ordering / invariance (further '
+                'individual factors) / missing / cv / result / permutation' % (list(units), 2 if thorough else 1))
+    for seed in range(2 if thorough else 1):
+        for uk, unit in enumerate(units):
+            for mk, method in enumerate(OPT_METHODS):
+                for sk, (n, nc) in enumerate(((3, 4), (4, 5))):
+                    if not thorough and (sk + uk + mk) % 2:          # quick: one shape per unit and method
+                        continue
+                    kind = ('pos', 'int', 'anti', 'neg')[(uk + mk + sk + seed) % 4]
+                    case = dict(seed=seed * 100 + n * 10 + nc + 1, n_rdm=n, n_cond=nc, kind=kind, method=method, unit=unit)
+                    if sk and uk % 2:
+                        case['nan'] = [0, 7]
+                    sw.add(orc_optimal, case, _ic(method, case))
+                for labels in (None, grp5):
+                    kind = ('pos', 'int', 'neg')[(uk + mk + seed) % 3]
+                    case = dict(seed=seed * 100 + 57, n_rdm=5, n_cond=5, kind=kind, method=method, unit=unit)
+                    if labels is not None:
+                        case['labels'] = labels
+                        sw.add(orc_upper_grouped, case, _ic(method, case, labels))
+                    sw.add(orc_loo, case, _ic(method, case, labels or list(range(5))))
+                kind = ('pos', 'int', 'scaled')[(uk + mk) % 3]
+                case = dict(seed=seed * 100 + 47, n_rdm=4, n_cond=6, kind=kind, method=method, folds=folds46, unit=unit)
+                if kind == 'int':
+                    case['nlev'] = 5
+                sw.add(orc_cv, case, f'{method},grid2x2' + _dim(case))
+                case = dict(seed=seed + 4, n_rdm=3, n_cond=5, kind='pos', method=method, mode='fixed', unit=unit)
+                sw.add(orc_result, case, f'{method},eval_fixed' + _dim(case))
+            for mk, method in enumerate(ALL_METHODS):
+                cls = 'whitened' if method.endswith('_cov') else 'plain'
+                kind = ('pos', 'neg', 'int')[(uk + mk) % 3]
+                if method in ORD_METHODS:
+                    for (n, nc) in ((3, 4), (5, 6)):
+                        case = dict(seed=seed * 100 + n * 10 + nc + 6, n_rdm=n, n_cond=nc, kind=kind, method=method, unit=unit)
+                        sw.add(orc_ordering, case, _ic(method, case))
+                    for labels in (None, grp5):
+                        case = dict(seed=seed * 10 + uk, n_rdm=5, n_cond=5, kind=kind, method=method, unit=unit)
+                        if labels is not None:
+                            case['labels'] = labels
+                        if not _undetermined(case):
+                            sw.add(orc_invariance, case, f'{method},{cls},boot' + _dim(case))
+                    case = dict(seed=seed * 10 + uk, n_rdm=4, n_cond=6, kind=kind, method=method, folds=folds46, unit=unit)
+                    if kind == 'int':
+                        case['nlev'] = 7
+                    if not _undetermined(case):
+                        sw.add(orc_invariance, case, f'{method},{cls},cv' + _dim(case), 'cv_noise_ceiling')
+                case = dict(seed=seed * 7 + uk, n_rdm=4, n_cond=5, kind='pos', method=method, drop=[uk % 5], unit=unit)
+                sw.add(orc_missing, case, f'{method},{cls},condition-missing' + _dim(case))
+                case = dict(seed=seed * 10 + uk + 1, n_rdm=5, n_cond=5, kind='pos', method=method, unit=unit, labels=grp5, n_perm=1)
+                if not _undetermined(case):
+                    sw.add(orc_permutation, case, f'{method},{cls},boot' + _dim(case))
+    sw.done()
+
+    # ---- containers and label types ----------------------------------------------------------------------------------------------
+    styles = [('float', lambda g: [2.5, -1.5, 0.25, 7.0, 3.5, -0.75][g]), ('negative-int', lambda g: [-3, 4, -10, 0, 2, -1][g]),
+              ('bool', lambda g: [True, False][g]), ('numeric-str', lambda g: ['10', '9', '2', '100', '1', '33'][g]),
+              ('mixed-length-str', lambda g: ['b', 'ab', 'B', 'a', 'abc', ''][g]), ('numpy-str', lambda g: ['s3', 's1', 's2', 's0', 's5', 's4'][g]),
+              ('numpy-int', lambda g: [7, 3, 5, 1, 9, 0][g])]
+    sw = _Sweep(run, bds, 'containers',
+                'rdm / pattern descriptors as list, tuple and ndarray; group labels float, negative int, bool, numeric strings (string '
+                'order != numeric order), strings of mixed length, numpy str / numpy int; data as square matrices; decoy descriptors '
+                'before and after the one that is named; fold values of the cv sets as list / tuple / ndarray; EVERY set partition of '
+                '%s RDMs into >= 2 groups x label types rotating, methods cosine / corr / rho-a rotating'
+                % ('4 and 5' if thorough else '4'))
+    for n in ((4, 5) if thorough else (4,)):
+        for pk, rgs in enumerate(_partitions(n)):
+            if max(rgs) == 0:
+                continue
+            for sk, (sname, fun) in enumerate(styles):
+                if sname == 'bool' and max(rgs) > 1:
+                    continue
+                labels = [fun(g) for g in rgs]
+                method = OPT_METHODS[(pk + sk) % 3]
+                kind = ('pos', 'int', 'neg')[(pk + 2 * sk) % 3]
+                case = dict(seed=2000 * n + 10 * pk + sk, n_rdm=n, n_cond=4 + pk % 2, kind=kind, method=method, labels=labels,
+                            label_style=sname)
+                if sname.startswith('numpy'):
+                    case['label_container'] = 'ndarray'
+                elif (pk + sk) % 3:
+                    case['label_container'] = ('tuple', 'ndarray')[(pk + sk) % 3 - 1]
+                if (pk + sk) % 4 == 0:
+                    case['decoys'] = True
+                if (pk + sk) % 5 == 0:
+                    case['matrix_input'] = True
+                sw.add(orc_loo, case, _ic(method, case, labels))
+                if max(rgs) < n - 1 and (pk + sk) % 2:
+                    sw.add(orc_upper_grouped, case, _ic(method, case, labels))
+    names8 = ['c7', 'c2', 'c5', 'c0', 'c9', 'c1', 'c4', 'c3']
+    for seed in range(3 if thorough else 1):
+        for mk, method in enumerate(OPT_METHODS):
+            for ck, how in enumerate(('list', 'tuple', 'ndarray')):
+                for lk, plab in enumerate((None, names8[:6], [0, 1, 1, 2, 3, 4])):
+                    folds = _grid_folds(4, 6, 2, 2, plab) if (ck + lk) % 2 else _random_folds(seed * 5 + ck + lk, 4, 6, 3, plab)
+                    case = dict(seed=seed * 100 + 40 + ck, n_rdm=4, n_cond=6, kind=('pos', 'int', 'scaled')[(mk + ck + lk) % 3],
+                                method=method, folds=folds, vals_container=how)
+                    if case['kind'] == 'int':
+                        case['nlev'] = 5
+                    if plab is not None:
+                        case['pattern_labels'] = plab
+                        case['label_container'] = how
+                    if (mk + ck + lk) % 2:
+                        case['decoys'] = True
+                    if (mk + ck) % 3 == 0:
+                        case['matrix_input'] = True
+                    sname = ('index', 'str-labels', 'repeated-labels')[lk]
+                    sw.add(orc_cv, case, f'{method},{sname}' + _dim(case))
+                    if lk < 2 and (ck + lk) % 2:      # grid folds: the other conditions form the training set
+                        sw.add(orc_result, dict(case, mode='crossval'), f'{method},crossval' + _dim(case))
+            for (n, nc) in ((3, 4), (4, 5)):
+                case = dict(seed=seed * 100 + n + nc, n_rdm=n, n_cond=nc, kind='pos', method=method, matrix_input=True)
+                sw.add(orc_optimal, case, _ic(method, case))
+        for method in ALL_METHODS:
+            cls = 'whitened' if method.endswith('_cov') else 'plain'
+            case = dict(seed=seed + 21, n_rdm=5, n_cond=5, kind='pos', method=method, labels=['b', 'a', 'b', 'c', 'a'],
+                        label_container='ndarray', decoys=True, matrix_input=True)
+            sw.add(orc_calls, case, f'{method},{cls},boot' + _dim(case))
+            if method in ORD_METHODS:
+                sw.add(orc_invariance, case, f'{method},{cls},boot' + _dim(case))
+            sw.add(orc_missing, dict(case, drop=[2]), f'{method},{cls},condition-missing' + _dim(case))
+    sw.done()
+
+    # ---- sizes: single-entry RDMs, many RDMs, many conditions ---------------------------------------------------------------------
+    sw = _Sweep(run, bds, 'sizes',
+                'n_cond = 2 (ONE entry; cosine only, a single entry has no correlation) with n_rdm 2..5 and every grouping of 3; '
+                'n_rdm 30 in 7 unbalanced interleaved groups with unsorted labels, n_cond 8; optimal at (n_rdm, n_cond) = (20, 9), '
+                '(2, 12); ordering at (40, 6), (3, 14); cv with 12 RDMs x 12 conditions in a 3 x 3 grid%s'
+                % ('; thorough: rho-a at these sizes, (60 RDMs, 10 conditions), (6, 20)' if thorough else ' (cosine, corr; rho-a: thorough)'))
+    for n in (2, 3, 4, 5):
+        case = dict(seed=n, n_rdm=n, n_cond=2, kind='pos', method='cosine')
+        sw.add(orc_loo, case, _ic('cosine', case, list(range(n))) + ',single-entry')
+    for rgs in ([0, 0, 1], [0, 1, 0], [0, 1, 1], [0, 1, 2]):
+        case = dict(seed=11, n_rdm=3, n_cond=2, kind='pos', method='cosine', labels=rgs)
+        sw.add(orc_loo, case, _ic('cosine', case, rgs) + ',single-entry')
+    big_methods = OPT_METHODS if thorough else ('cosine', 'corr')
+    rs = np.random.RandomState(30)
+    lab30 = [[41, 7, 19, 3, 88, 5, 23][int(g)] for g in rs.choice(7, size=30, p=[.3, .25, .15, .1, .1, .05, .05])]
+    for method in big_methods:
+        for kind in ('pos', 'int'):
+            case = dict(seed=30, n_rdm=30, n_cond=8, kind=kind, method=method, labels=lab30)
+            sw.add(orc_loo, case, _ic(method, case, lab30) + ',many-rdms')
+        sw.add(orc_upper_grouped, dict(seed=31, n_rdm=30, n_cond=8, kind='pos', method=method, labels=lab30),
+               f'{method},pos,unbalanced-groups,many-rdms')
+        for (n, nc) in ((20, 9), (2, 12)):
+            case = dict(seed=n + nc, n_rdm=n, n_cond=nc, kind='pos' if n == 20 else 'neg', method=method, n_rand=6)
+            sw.add(orc_optimal, case, _ic(method, case) + ',large')
+        case = dict(seed=12, n_rdm=12, n_cond=12, kind='pos', method=method, folds=_grid_folds(12, 12, 3, 3))
+        sw.add(orc_cv, case, f'{method},grid3x3,large')
+    for method in ORD_METHODS:
+        for (n, nc) in ((40, 6), (3, 14)):
+            for kind in ('pos', 'neg'):
+                case = dict(seed=n + nc, n_rdm=n, n_cond=nc, kind=kind, method=method)
+                sw.add(orc_ordering, case, _ic(method, case) + ',large')
+    if thorough:
+        lab60 = [int(g) for g in np.random.RandomState(60).randint(0, 12, size=60)]
+        for method in OPT_METHODS:
+            case = dict(seed=60, n_rdm=60, n_cond=10, kind='pos', method=method, labels=lab60)
+            sw.add(orc_loo, case, _ic(method, case, lab60) + ',many-rdms')
+            case = dict(seed=61, n_rdm=6, n_cond=20, kind='pos', method=method, n_rand=4)
+            sw.add(orc_optimal, case, _ic(method, case) + ',large')
+            sw.add(orc_loo, dict(case, n_rand=None), _ic(method, case, list(range(6))) + ',large')
+    sw.done()
+
+    # ---- call sequences --------------------------------------------------------------------------------------------------------------
+    sw = _Sweep(run, bds, 'calls',
+                'f(B), f(A), f(B), f(A) on the same objects, A and B of the same shape and descriptors with different values; '
+                'boot_noise_ceiling (default descriptor and 3 groupings, n_rdm 5, n_cond 5..6) and cv_noise_ceiling (2x2 grid, random '
+                'folds, string pattern labels; n_rdm 4, n_cond 6) x 5 methods x data kinds pos / int / neg x %d seeds; repeated '
+                'calls identical, stated value for each stack, inputs and fold sets unchanged, pooled RDM held by the caller unchanged'
+                % (3 if thorough else 1))
+    groupings = [None, [0, 0, 1, 1, 2], grp5, ['b', 'a', 'b', 'c', 'a']]
+    for seed in range(3 if thorough else 1):
+        for method in ALL_METHODS:
+            cls = 'whitened' if method.endswith('_cov') else 'plain'
+            for gk, labels in enumerate(groupings):
+                kind = ('pos', 'int', 'neg')[(gk + seed) % 3] if method in OPT_METHODS else 'pos'
+                case = dict(seed=seed * 10 + gk, n_rdm=5, n_cond=5 + gk % 2, kind=kind, method=method)
+                if labels is not None:
+                    case['labels'] = labels
+                if gk == 2:
+                    case['nan_conds'] = [1]
+                sw.add(orc_calls, case, f'{method},{cls},boot')
+            for fk, (folds, plab) in enumerate(((folds46, None), (_random_folds(seed + 3, 4, 6, 3), None),
+                                                (_grid_folds(4, 6, 2, 2, names8[:6]), names8[:6]))):
+                case = dict(seed=seed * 10 + fk, n_rdm=4, n_cond=6, kind='pos', method=method, folds=folds)
+                if plab is not None:
+                    case['pattern_labels'] = plab
+                sw.add(orc_calls, case, f'{method},{cls},cv', 'cv_noise_ceiling')
+    sw.done()
+
+    # ---- order of the RDMs / of the conditions -----------------------------------------------------------------------------------
+    sw = _Sweep(run, bds, 'order',
+                'the stack in %d random order(s) and reversed (labels moved along), the conditions listed in as many random orders and reversed: '
+                'same bounds (1e-8); 5 methods x default descriptor and 3 groupings (n_rdm 5..6, n_cond 5..6) x data kinds pos / neg / '
+                'int x with / without common missing entries x %d seeds; stacks with an undetermined prediction left out'
+                % (2 if thorough else 1, 4 if thorough else 1))
+    groupings = [None, [0, 0, 1, 1, 2, 2], [3, 1, 3, 3, 2, 1], ['b', 'a', 'b', 'c', 'a', 'c']]
+    for seed in range(4 if thorough else 1):
+        for method in ALL_METHODS:
+            cls = 'whitened' if method.endswith('_cov') else 'plain'
+            for gk, labels in enumerate(groupings):
+                for kk, kind in enumerate(('pos', 'neg', 'int')):
+                    n = 5 + (gk + kk) % 2
+                    case = dict(seed=seed * 10 + kk + gk, n_rdm=n, n_cond=5 + kk % 2, kind=kind, method=method)
+                    if kind == 'int':
+                        case['nlev'] = 9
+                    if labels is not None:
+                        case['labels'] = labels[:n]
+                    if (gk + kk) % 2:
+                        case['nan_conds'] = [2]
+                    elif gk == 2:
+                        case['nan'] = [0, 3]
+                    if not thorough:
+                        case['n_perm'] = 1
+                    if not _undetermined(case):
+                        sw.add(orc_permutation, case, f'{method},{cls},boot')
+    sw.done()
+
+    # ---- environment: a new interpreter with another hash seed -----------------------------------------------------------------------
+    hashseeds = (4242, 1, 7, 99991, 2 ** 31) if thorough else (4242,)
+    sw = _Sweep(run, bds, 'environment',
+                'child interpreters with PYTHONHASHSEED in %s (this process: %s), each evaluating 5 methods x {string group labels '
+                '(interleaved, unbalanced), numeric-string labels, default descriptor} with boot_noise_ceiling and 5 methods x '
+                '{string pattern labels, repeated pattern labels} with cv_noise_ceiling; same bounds as here (1e-12) and as stated'
+                % (list(hashseeds), os.environ.get('PYTHONHASHSEED', 'random')))
+    for hk, hs in enumerate(hashseeds):
+        subs = []
+        for mk, method in enumerate(ALL_METHODS):
+            for lk, labels in enumerate((['b', 'a', 'b', 'c', 'a'], ['10', '9', '10', '2', '10'], None)):
+                sub = dict(seed=hk * 10 + lk, n_rdm=5, n_cond=5, kind=('pos', 'int')[(mk + lk) % 2] if method in OPT_METHODS else 'pos',
+                           method=method)
+                if labels is not None:
+                    sub['labels'] = labels
+                    sub['decoys'] = bool(lk)
+                subs.append(sub)
+            for lk, plab in enumerate((names8[:6], [0, 1, 1, 2, 3, 4])):
+                sub = dict(seed=hk * 10 + lk + 5, n_rdm=4, n_cond=6, kind='pos', method=method, pattern_labels=plab,
+                           folds=_grid_folds(4, 6, 2, 2, plab) if lk else _random_folds(hk + 9, 4, 6, 3, plab))
+                subs.append(sub)
+        sw.add(orc_new_interpreter, dict(hashseed=hs, cases=subs), 'hashseed,string-labels')
+    sw.done()
 
 
 def replay(path):
